@@ -23,17 +23,17 @@ install_int()  `int(<symbolic str>)` (base 10, one argument)
     characters as a symbolic int (sum of (c-48)*10^k, negated after '-').  Otherwise stock.
 
 install_intfmt()  `format(<symbolic int>, "")` / `f"{i}"`
-    Stock realises the int.  Here: CrossHair's own symbolic `SymbolicInt.__repr__` (forks on the number of
-    digits only); `format(i, "") == repr(i)` for every int.  Non-empty format specs: stock.
+    Stock (`format` builtin patch) deep-realises the int.  Here: CrossHair's own symbolic `SymbolicInt.__repr__`
+    (forks on the number of digits only); `format(i, "") == repr(i)` for every int.  Non-empty specs: stock.
 
 `python -m vp.chnum` compares both recognisers (and the int value) with CPython on every string of length <= 5
 over one representative of each character class the grammars distinguish (5.4 million strings; 0 disagreements
 on CPython 3.12).
 """
-from crosshair.core import _PATCH_REGISTRATIONS, realize
+from crosshair.core import _PATCH_REGISTRATIONS, realize, deep_realize
 import crosshair.core_and_libs  # noqa: F401  (registers the stock patches)
 from crosshair.tracers import NoTracing
-from crosshair.libimpl.builtinslib import AnySymbolicStr, SymbolicInt, SymbolicNumberAble
+from crosshair.libimpl.builtinslib import AnySymbolicStr, SymbolicInt, SymbolicFloat
 
 
 # blanks that float()/int() strip below 128: Py_ISSPACE = space, \t \n \v \f \r (NOT \x1c-\x1f, unlike str.isspace)
@@ -137,71 +137,78 @@ def _codepoints(val):
     return cp
 
 
-_stock_float = None
-_stock_int = None
-_stock_fmt = None
+# NOTE: CrossHair routes a call of the patched builtin made from *inside the registered patch's own code
+# object* to the native builtin (tracers.PatchingModule.nextfn).  Delegating to the stock patch function from a
+# wrapper would therefore recurse (stock's inner `float(...)` call would come back here); the non-string
+# branches of the stock patches are small and are repeated below instead.
+_installed = set()
 
 
-def _float(*a, **kw):
-    if len(a) != 1 or kw:
-        return _stock_float(*a, **kw)
-    val = a[0]
+def _float(val=0.0):
     with NoTracing():
-        symbolic = isinstance(val, AnySymbolicStr)
-    if not symbolic:
-        return _stock_float(val)
-    cp = _codepoints(val)
-    if cp is None:
-        return _stock_float(val)
-    if float_accepts(cp):
-        return float(realize(val))
-    raise ValueError("could not convert string to float")
+        if isinstance(val, SymbolicFloat):
+            return val
+        symbolic_str = isinstance(val, AnySymbolicStr)
+        symbolic_int = isinstance(val, SymbolicInt)
+    if symbolic_int:
+        return val.__float__()
+    if symbolic_str:
+        cp = _codepoints(val)
+        if cp is not None and not float_accepts(cp):
+            raise ValueError("could not convert string to float")
+    return float(realize(val))
 
 
 def _int(*a, **kw):
-    if len(a) != 1 or kw:
-        return _stock_int(*a, **kw)
-    val = a[0]
+    if len(a) == 1 and not kw:
+        val = a[0]
+        with NoTracing():
+            if isinstance(val, SymbolicInt):
+                return val
+            symbolic_str = isinstance(val, AnySymbolicStr)
+        if symbolic_str:
+            cp = _codepoints(val)
+            if cp is not None:
+                ret = int_parse(cp)
+                if ret is None:
+                    raise ValueError("invalid literal for int() with base 10")
+                return ret
     with NoTracing():
-        symbolic = isinstance(val, AnySymbolicStr)
-    if not symbolic:
-        return _stock_int(val)
-    cp = _codepoints(val)
-    if cp is None:
-        return _stock_int(val)
-    ret = int_parse(cp)
-    if ret is None:
-        raise ValueError("invalid literal for int() with base 10")
-    return ret
+        a = deep_realize(a)
+        kw = deep_realize(kw)
+    return int(*a, **kw)
 
 
-def _format(self, fmt):
+def _format(obj, format_spec=""):
     with NoTracing():
-        plain = type(self) is SymbolicInt and type(fmt) is str and fmt == ""
-    if plain:
-        return self.__repr__()
-    return _stock_fmt(self, fmt)
+        if isinstance(format_spec, AnySymbolicStr):
+            format_spec = realize(format_spec)
+        if format_spec in ("", "s") and isinstance(obj, AnySymbolicStr):
+            return obj
+        plain_int = format_spec == "" and isinstance(obj, SymbolicInt)
+    if plain_int:
+        return obj.__repr__()
+    with NoTracing():
+        obj = deep_realize(obj)
+    return format(obj, format_spec)
 
 
 def install_float():
-    global _stock_float
-    if _stock_float is None:
-        _stock_float = _PATCH_REGISTRATIONS[float]
+    if "float" not in _installed:
+        _installed.add("float")
         _PATCH_REGISTRATIONS[float] = _float
 
 
 def install_int():
-    global _stock_int
-    if _stock_int is None:
-        _stock_int = _PATCH_REGISTRATIONS[int]
+    if "int" not in _installed:
+        _installed.add("int")
         _PATCH_REGISTRATIONS[int] = _int
 
 
 def install_intfmt():
-    global _stock_fmt
-    if _stock_fmt is None:
-        _stock_fmt = SymbolicNumberAble.__format__
-        SymbolicNumberAble.__format__ = _format
+    if "format" not in _installed:
+        _installed.add("format")
+        _PATCH_REGISTRATIONS[format] = _format
 
 
 def _selftest(maxlen=5):
